@@ -1,6 +1,108 @@
-(* Properties/C01.v - Request fidelity (placeholder while the model is being tied; theorems follow) *)
-From ReqV Require Import Lib.Bytes Model.Url.
+(* Properties/C01.v - Request fidelity: the server sees exactly the request the API calls describe.
+   Only statements, `exact`, and Print Assumptions.
+   Model: Model/Url.v (net/url escaping, parseRequestURL), Model/H1Req.v (request writers). *)
+From ReqV Require Import Lib.Bytes Model.Url Proofs.UrlProofs.
+From Coq Require Import Permutation.
 
+(* --- values are data: escaping is invertible and leaves no byte with a meaning in a URL --- *)
+Theorem C01_escape_invertible : forall m v, unescape m (escape m v) = Some v.
+Proof. exact unescape_escape. Qed.
+Print Assumptions C01_escape_invertible.
+
+(* no '/', '?', '#', '{', '}', ';', ',', blank, control or non-ASCII byte in an escaped path value *)
+Theorem C01_path_escape_inert : forall v,
+  unescape EPathSeg (path_escape v) = Some v /\ forallb path_inert (path_escape v) = true.
+Proof. exact path_escape_inert. Qed.
+Print Assumptions C01_path_escape_inert.
+
+Theorem C01_query_escape_inert : forall v, forallb query_inert (query_escape v) = true.
+Proof. exact query_escape_inert_bytes. Qed.
+Print Assumptions C01_query_escape_inert.
+
+(* --- parameter substitution: for every template made of brace-free text and {key} holes, and every
+   parameter list with brace-free keys, each hole receives the escaped value of the FIRST binding
+   of its key and everything else stays as written --- *)
+Theorem C01_subst_closed_form : forall kvs ts,
+  forallb wf_tok ts = true -> forallb (fun kv => brace_free (fst kv)) kvs = true ->
+  subst_params (render_toks ts) kvs = concat (map (fill kvs) ts).
+Proof. exact subst_closed_form. Qed.
+Print Assumptions C01_subst_closed_form.
+
+(* Go's map iteration order cannot matter: every permutation of the parameter map gives the same URL *)
+Theorem C01_subst_order_irrelevant : forall ts kvs kvs',
+  forallb wf_tok ts = true -> forallb (fun kv => brace_free (fst kv)) kvs = true ->
+  NoDup (map fst kvs) -> Permutation kvs kvs' ->
+  subst_params (render_toks ts) kvs' = subst_params (render_toks ts) kvs.
+Proof. exact subst_order_irrelevant. Qed.
+Print Assumptions C01_subst_order_irrelevant.
+
+(* request-level value wins over the client-level value of the same key, whatever the two orders *)
+Theorem C01_subst_request_wins : forall ts rp cp rp' cp',
+  forallb wf_tok ts = true ->
+  forallb (fun kv => brace_free (fst kv)) rp = true -> forallb (fun kv => brace_free (fst kv)) cp = true ->
+  NoDup (map fst rp) -> NoDup (map fst cp) -> Permutation rp rp' -> Permutation cp cp' ->
+  subst_params (render_toks ts) (rp' ++ cp') =
+  concat (map (fun t => match t with
+                        | TLit s => s
+                        | THole k => match lookup k rp with
+                                     | Some v => path_escape v
+                                     | None => match lookup k cp with
+                                               | Some v => path_escape v
+                                               | None => placeholder k
+                                               end
+                                     end
+                        end) ts).
+Proof. exact subst_request_wins. Qed.
+Print Assumptions C01_subst_request_wins.
+
+(* a value can never add (or remove) a path separator, a query or a fragment: the number of
+   '/', '?', '#' (and of any other byte that escaped text cannot contain) is that of the template *)
+Theorem C01_subst_preserves_structure : forall c ts kvs,
+  path_inert c = false -> c <> lbrace -> c <> rbrace ->
+  forallb wf_tok ts = true -> forallb (fun kv => brace_free (fst kv)) kvs = true ->
+  hole_keys_free c ts = true ->
+  count_byte c (subst_params (render_toks ts) kvs) = count_byte c (render_toks ts).
+Proof. exact subst_preserves_structure. Qed.
+Print Assumptions C01_subst_preserves_structure.
+
+(* ... and the path that reaches the wire (url.Parse's setPath, the RawPath normalisation of
+   parseURLKeepEscapes, URL.EscapedPath) decodes to the parsed path and has exactly the separators
+   of the substituted text, whatever else that text contains *)
+Theorem C01_escaped_path_keeps_text : forall p path rp,
+  set_path p = Some (path, rp) ->
+  let e := escaped_path_of path (keep_path_escapes rp) in
+  unescape EPath e = Some path /\ count_byte "/"%byte e = count_byte "/"%byte p.
+Proof. exact escaped_path_keeps_text. Qed.
+Print Assumptions C01_escaped_path_keeps_text.
+
+(* the pinned code (RawPath as parsed) turned an escaped separator into a real one *)
+Theorem C01_escaped_path_pinned_refuted :
+  exists p path rp, set_path p = Some (path, rp) /\
+    count_byte "/"%byte (escaped_path_of path rp) <> count_byte "/"%byte p.
+Proof. exact escaped_path_pinned_refuted. Qed.
+
+(* --- query parameters --- *)
+Theorem C01_query_roundtrip : forall m,
+  parse_query (encode_values m) = Some (flat_pairs (sort_keys m)).
+Proof. exact query_roundtrip. Qed.
+Print Assumptions C01_query_roundtrip.
+
+Theorem C01_merge_query_spec : forall cq rq k v,
+  In (k, v) (flat_pairs (merge_query cq rq)) <->
+  In (k, v) (flat_pairs rq) \/ (has_key k rq = false /\ In (k, v) (flat_pairs cq)).
+Proof. exact merge_query_spec. Qed.
+Print Assumptions C01_merge_query_spec.
+
+(* non-vacuity: a template with two holes, overlapping client/request keys and hostile values *)
 Example C01_nonvacuous :
-  path_escape (bs "a/b c") = bs "a%2Fb%20c".
-Proof. vm_compute. reflexivity. Qed.
+  let ts := [TLit (bs "/users/"); THole (bs "id"); TLit (bs "/files/"); THole (bs "name")] in
+  let rp := [(bs "id", bs "../admin?x=1#f")] in
+  let cp := [(bs "name", bs "a b/{id}"); (bs "id", bs "ignored")] in
+  forallb wf_tok ts = true /\
+  subst_params (render_toks ts) (rp ++ cp) = bs "/users/..%2Fadmin%3Fx=1%23f/files/a%20b%2F%7Bid%7D" /\
+  parse_request_url (bs "http://h:80/base path") (render_toks ts) rp cp
+    [(bs "q", [bs "c&d=e"])] [(bs "q", [bs "a b"; bs "="])] =
+    BOk (bs "http") (bs "h:80") (bs "/base%20path/users/..%2Fadmin%3Fx=1%23f/files/a%20b%2F%7Bid%7D?q=a+b&q=%3D") /\
+  parse_request_url_pinned (bs "http://h:80/base path") (render_toks ts) rp cp [] [] =
+    BOk (bs "http") (bs "h:80") (bs "/base%20path/users/../admin%3Fx=1%23f/files/a%20b/%7Bid%7D").
+Proof. vm_compute. repeat split. Qed.
